@@ -23,12 +23,47 @@ def bits(x):
     return "x" + struct.pack(">d", x).hex()
 
 
+def site_problems(info):
+    """readable form of what C07_par_sites_ok will reject (the theorem is the judge; this is the diagnosis)"""
+    out = []
+    if info.get("error"):
+        out.append("extractor: " + info["error"])
+    for r in info.get("sites", []):
+        why = []
+        if r["entry"] not in ("into_par_iter", "par_iter"):
+            why.append("entry %s" % r["entry"])
+        if r["src"][0] not in ("range", "vec"):
+            why.append("source not indexed (%s: %s)" % r["src"])
+        if any(a != "map" for a in r["adaptors"]):
+            why.append("adaptors %s" % r["adaptors"])
+        if r["sink"][0] != "collect_vec":
+            why.append("sink %s %s" % r["sink"])
+        if not r["post"] or any(p not in ("seq_for", "seq_iter", "returned") for p in r["post"]):
+            why.append("result consumed by %s" % r["post"])
+        if r["shared"]:
+            why.append("shared state in a closure: %s" % r["shared"])
+        if why:
+            out.append("rayon call site %s:%s (%s) is outside the modelled fragment: %s"
+                       % (r["file"], r["line"], r["fn"], "; ".join(why)))
+    fns = [r["fn"] for r in info.get("sites", [])]
+    want = ["betweenness_centrality", "closeness_centrality", "all_pairs", "multi_source"]
+    if fns != want:
+        out.append("functions with a rayon call site are %s, expected %s" % (fns, want))
+    if info.get("unsafe"):
+        out.append("unsafe code in the crate: %s" % info["unsafe"][:5])
+    if info.get("interior"):
+        out.append("interior mutability in the crate: %s" % info["interior"][:5])
+    if any(v > 20 for (_, v) in info.get("thresholds", [])):
+        out.append("a parallel-path threshold exceeds 20: %s" % info["thresholds"])
+    return out
+
+
 class ParProp(props.BaseProp):
     id = "C07"
     run_module = "Run.RunPar"
     harness_mode = "par"
     profiles = ["debug", "release"]
-    quick_n, thorough_n = 60, 700
+    quick_n, thorough_n = 150, 900
     shards = 8
     diff_kind = "counterexample"
     trusted_extra = [
@@ -181,6 +216,7 @@ class ParProp(props.BaseProp):
     def run_cases(self, cases, wd, tag="gen", build=True):
         probes = [c for c in cases if c["kind"] == "probe"]
         graphs = [c for c in cases if c["kind"] == "graph"]
+        diagnosis = site_problems(PAR_INFO)
         # probes: correspondence with the Coq model (debug build; the schedule differs from run to run,
         # so debug and release are NOT compared with each other)
         prof, self.profiles = self.profiles, ["debug"]
@@ -188,6 +224,7 @@ class ParProp(props.BaseProp):
             res = super().run_cases(probes, wd, tag=tag, build=build)
         finally:
             self.profiles = prof
+        res["corr_errors"] += diagnosis
         if any("does not build" in e for e in res["corr_errors"]):
             return res
         if graphs:
@@ -310,8 +347,37 @@ class ParProp(props.BaseProp):
 
 C07 = props.register(ParProp())
 C07.manifest = {
-    "text": "TO BE FILLED",
-    "note": "TO BE FILLED",
+    "text": "PARTIAL by nature. Proved (Coq, unbounded, axiom-free): in a model of the rayon fragment the crate uses - an "
+            "indexed source, `map f`, `collect` into a Vec, where a schedule is the order in which the work items are "
+            "executed (any splitting tree / stealing order) - the collected vector equals map f xs for EVERY schedule "
+            "that is a permutation of the item indices and every pure f (C07_schedule_independent, "
+            "C07_two_schedules_agree); gathering in parallel and then post-processing sequentially equals the serial "
+            "path (C07_gather_then_post: all_pairs, multi_source, get_all_shortest_paths_involving through all_pairs); "
+            "gathering and then folding sequentially in index order equals the serial loop for an ARBITRARY combine, in "
+            "particular a non-associative floating-point accumulation (C07_gather_then_fold: betweenness, closeness) - "
+            "so both paths perform every floating-point operation in the same order, which is what bit-for-bit "
+            "equality needs. The hypotheses of that model are re-extracted from the current source tree on every run "
+            "(tools/gen_parsites.py -> Gen/ParSites.v: every rayon call site with its source kind, adaptor chain, "
+            "sink, consumption of the result, shared-state tokens in closures; crate-wide unsafe / interior-mutability "
+            "scan; node-count thresholds) and re-proved by vm_compute (C07_par_sites_ok, C07_par_sites_modelled): "
+            "exactly the four sites betweenness_centrality, closeness_centrality, all_pairs (via all_pairs_par_iter), "
+            "multi_source; indexed source, adaptors = {map}, collect into Vec, sequential consumption, no Mutex/atomic/"
+            "RefCell/unsafe anywhere in the crate, thresholds <= 20.",
+    "note": "NOT proved: rayon's implementation of the indexed collect, real work stealing and memory ordering (modelled "
+            "by run_par; a per-run probe records the schedule rayon really used and the Coq model must reproduce the "
+            "collected vector from it); that the closures handed to rayon are pure functions of (&Graph, item) - "
+            "supported by the source scan (no interior mutability, no unsafe => shared &Graph is race-free by Rust's "
+            "type system) but not derived from a model of the five algorithms. The per-function "
+            "`<fn>_parallel_eq_serial` theorems of DESIGN.md are given in generic form (arbitrary pure f, post, combine) "
+            "because the algorithm models belong to other work packages. EXPLORATION (testing, not proof), every run: "
+            "the five functions on random graphs of 21-60 nodes (120 in the thorough tier), unweighted / dyadic / "
+            "non-dyadic weights, inside ThreadPool::install for pool sizes 1,2,3,4,8,16 x 2 repetitions plus the global "
+            "pool, compared bit for bit (f64::to_bits, path lists) with each other, with the pool-size-1 run (serial "
+            "path) and with a serial reference built from per-source single_source calls; 8 threads hammering one "
+            "shared &Graph with read-only calls while the parallel functions run. A source change that leaves the "
+            "modelled fragment (reduce/sum/fold/for_each/par_bridge, unindexed source, collect into a map, a Mutex) "
+            "is reported as VIOLATION ... no-failing-input-found unless the exploration finds differing bits. "
+            "Axioms: none (Closed under the global context) for all 6 pinned theorems.",
     "technique": "Coq proof about a schedule model of the rayon fragment + source-extracted hypotheses re-proved per "
-                 "run + bit-for-bit exploration on the implementation",
+                 "run (vm_compute) + schedule-probe correspondence + bit-for-bit exploration on the implementation",
 }
